@@ -353,6 +353,11 @@ class StmtMixin(ExecBase):
                 o1 = VObj((cls,), o.t)
                 if source.find_method(cls, "__setattr__"):
                     return self.call_method(st1, ctx, o1, "__setattr__", [VStr(attr), v], {}, lambda s, _r: k(s), node)
+                dc, fty = field_decl(cls, attr)
+                if isinstance(v, VOpt) and fty is not None and fty.k != "opt":
+                    def none_case(s_):
+                        raise Unsupported("None may be stored into non-optional field %s.%s (line %s)" % (cls, attr, line))
+                    return self.branch(st1, v.isnone, none_case, lambda s_: (store_field(s_, o.t, cls, attr, v.val), k(s_)))
                 store_field(st1, o.t, cls, attr, v)
                 k(st1)
             return self.for_classes(st, o, per_class)
@@ -378,6 +383,11 @@ class StmtMixin(ExecBase):
             if not (isinstance(i, VStr) and i.s is not None):
                 raise Unsupported("__dict__ store with a symbolic key")
             def per_class(st1, cls):
+                dc, fty = field_decl(cls, i.s)
+                if isinstance(v, VOpt) and fty is not None and fty.k != "opt":
+                    def none_case(s_):
+                        raise Unsupported("None may be stored into non-optional field %s.%s (line %s)" % (cls, i.s, line))
+                    return self.branch(st1, v.isnone, none_case, lambda s_: (store_field(s_, o.obj.t, cls, i.s, v.val), k(s_)))
                 store_field(st1, o.obj.t, cls, i.s, v)
                 k(st1)
             return self.for_classes(st, o.obj, per_class)
